@@ -7,7 +7,7 @@ BUILD="${VERIF_BUILD:-$VERIF_DIR/.build}"
 what="${1:-determinism}"; shift || true
 case "$what" in
  determinism)
-  props="$*"; [ -n "$props" ] || props=$(VERIF_ROLE=driver VERIF_MODE=list "$BUILD/sim.test" -test.run '^$' | grep -v '^C20$') # C20 is an enumeration of suite runs (child processes), not a seeded search: no event log to compare
+  props="$*"; [ -n "$props" ] || props=$(VERIF_ROLE=driver VERIF_MODE=list "$BUILD/sim.test" -test.run '^$' | tr ' ' '\n' | grep -v '^C20$') # C20 is an enumeration of suite runs (child processes), not a seeded search: no event log to compare
   n="${VERIF_TRIALS:-60}"
   fail=0
   tmp=$(mktemp -d)
